@@ -32,8 +32,8 @@ RULE = (
 TOLERANCES = {"everything": "bitwise / exact equality (OpenCV's RNG re-seeded before each colour-correction evaluation)"}
 ASSUMPTIONS = ["files are written to a per-run temporary directory that is removed afterwards", "lossless formats: PNG (8 bit) and TIFF (16 bit), as documented in OpticalImage.write"]
 FLOORS = {
-    "quick": {"optical_written_again_after_reading": 50, "files_16bit_read_as_list": 4, "files_read_in_given_order": 16, "write_with_compression_option": 15, "npz_roundtrip": 250, "bytes_roundtrip": 150, "optical_write_read": 60, "correction_roundtrip": 150, "estimator_regions_compared": 100, "correction_path_reused": 200, "caller_config_edited_after_construction": 40, "curvature_crop_points_typed": 6, "curvature_resize_factor": 20, "curvature_interpolation_order": 20, "optical_image_converted_before_saving": 2, "date_set_after_construction": 5},
-    "thorough": {"optical_written_again_after_reading": 600, "files_16bit_read_as_list": 40, "files_read_in_given_order": 160, "write_with_compression_option": 200, "npz_roundtrip": 3000, "bytes_roundtrip": 1800, "optical_write_read": 700, "correction_roundtrip": 1700, "estimator_regions_compared": 1000, "correction_path_reused": 2000, "caller_config_edited_after_construction": 400, "curvature_crop_points_typed": 60, "curvature_resize_factor": 200, "curvature_interpolation_order": 200, "optical_image_converted_before_saving": 50, "date_set_after_construction": 100},
+    "quick": {"optical_written_again_after_reading": 50, "files_16bit_read_as_list": 4, "files_read_in_given_order": 16, "write_with_compression_option": 15, "npz_roundtrip": 250, "bytes_roundtrip": 150, "optical_write_read": 60, "correction_roundtrip": 150, "estimator_regions_compared": 100, "correction_path_reused": 200, "caller_config_edited_after_construction": 40, "curvature_crop_points_typed": 6, "curvature_resize_factor": 20, "curvature_interpolation_order": 20, "optical_image_converted_before_saving": 2, "date_set_after_construction": 5, "explicit_times_beside_dates": 10},
+    "thorough": {"optical_written_again_after_reading": 600, "files_16bit_read_as_list": 40, "files_read_in_given_order": 160, "write_with_compression_option": 200, "npz_roundtrip": 3000, "bytes_roundtrip": 1800, "optical_write_read": 700, "correction_roundtrip": 1700, "estimator_regions_compared": 1000, "correction_path_reused": 2000, "caller_config_edited_after_construction": 400, "curvature_crop_points_typed": 60, "curvature_resize_factor": 200, "curvature_interpolation_order": 200, "optical_image_converted_before_saving": 50, "date_set_after_construction": 100, "explicit_times_beside_dates": 100},
 }
 SHARD_TIMEOUT = {"quick": 1500, "thorough": 7200}
 
@@ -99,6 +99,15 @@ def run_shard(spec, R):
             img.update_metadata(date=_dt(2024, 2, 29, 13, 14, 15, 160000 + n))
             case["date_set_after_construction"] = True
             R.count("date_set_after_construction")
+        if time_kind == "date" and n % 3 == 0:
+            # dates AND a clock of its own (e.g. started 90 s before the first image): the times are data, they are
+            # not the dates minus the reference date
+            cur = img.time
+            own = [90.0 + 1.5 * float(t) for t in cur] if isinstance(cur, list) else 90.0 + 1.5 * float(cur if cur is not None else 0.0)
+            ok_t, _ = R.guarded("set_time", lambda: img.set_time(own))
+            if ok_t:
+                case["explicit_times_beside_dates"] = True
+                R.count("explicit_times_beside_dates")
         before = snap(img)
         meta0 = img.metadata()
         path = tmp / f"im{n % 3}.npz"  # file names are reused (overwritten) within a shard
